@@ -408,9 +408,20 @@ func (e *Engine) callFunction(st *State, fr *Frame, res ssa.Value, callee *ssa.F
 		e.bind(fr, res, r)
 		return false
 	}
-	if fc := e.W.ByFunc[callee]; fc != nil {
+	concreteArgs := func() bool {
+		for _, a := range args {
+			for _, l := range a {
+				if !st.norm(l).IsConst() {
+					return false
+				}
+			}
+		}
+		return len(args) > 0
+	}
+	if fc := e.W.ByFunc[callee]; fc != nil && !(fc.Pure && len(fc.Ensures) == 0 && len(fc.Requires) == 0 && len(callee.Blocks) > 0 && concreteArgs()) {
 		// a function's own body is verified against its contract; every call (including
-		// recursive ones) uses the contract
+		// recursive ones) uses the contract.  (A reader declared `pure` without clauses is a
+		// deterministic function of its arguments: on constant arguments it is simply executed.)
 		results := e.applySummary(st, fr, callee, fc, args, at)
 		if st.dead {
 			return true
